@@ -10,7 +10,7 @@ THEOREMS = ['C06_gpu_threads_cover', 'C06_lane_independent', 'C06_release_order_
             'C06_c_reuse_irrelevant', 'C06_c_reuse_same_interface', 'C06_end_to_end_reuse', 'C06_options_irrelevant_spec',
             'C06_options_irrelevant',
             'C06_buf_zero_delay_identity', 'C06_buf_zero_delay_overflow', 'C06_buf_zero_delay_nonmonotone_refuted', 'C06_wexec_alias_id',
-            'C06_wave_strip_forks_irrelevant', 'C06_wave_strip_forks_polfree', 'C06_wave_strip_nonmonotone_refuted',
+            'C06_wave_strip_forks_irrelevant', 'C06_wave_strip_forks_polfree', 'C06_wave_strip_nonmonotone_refuted', 'C06_wavesim_options_irrelevant',
             'C06_dataset_selection', 'C06_dataset_selection_lanes']
 COLS = [3, 4, 5, 6, 7, 10]
 
@@ -102,6 +102,7 @@ def wave_line_level(ck, rng, n_strip, n_sel):
     wexec_alias (Model/WaveStripModel.v) vs WaveSim(strip_forks=True); wexec_sel vs WaveSim with a dataset table in modes 0 / 1."""
     import json, os
     cases, metas, kinds = [], [], []
+    gcases, gmetas = [], []
     corpus = os.path.join(os.path.dirname(os.path.dirname(os.path.dirname(os.path.abspath(__file__)))), 'harness', 'corpus', 'C06_strip_nonmonotone.json')
     queue = [wk.from_description(json.load(open(corpus)))] if os.path.exists(corpus) else []
     made = 0
@@ -117,6 +118,12 @@ def wave_line_level(ck, rng, n_strip, n_sel):
         cases.append(wc.coq_strip_case(k.c, k.caps, k.delays, w, lane, k.s0, k.s1, k.s2, k.extra))
         metas.append(dict(wk.describe(k), kind='wave-line-strip', lane=lane)); kinds.append('strip')
         ck.count(1, 'line-level-strip-cases')
+        # the end-to-end statement (C06_wavesim_options_irrelevant / C03_wavesim_model_correct): all four option combinations of the
+        # implementation against ONE prediction, the capture of the un-stripped line-level waveforms
+        for reuse, strip in ((False, True), (True, True), (True, False)):
+            wg = w if (strip and not reuse) else wk.run_case(k, strip=strip, reuse=reuse)
+            gcases.append(wc.coq_glue_case(k.c, k.caps, strip, k.delays, wg, lane, k.s0, k.s1, k.s2, k.extra, k.tcap, a_ctrl=k.a_ctrl))
+            gmetas.append(dict(wk.describe(k), kind='wave-end-to-end', lane=lane, c_reuse=reuse, strip_forks=strip))
         made += 1
     made = 0
     while made < n_sel:
@@ -153,7 +160,8 @@ def wave_line_level(ck, rng, n_strip, n_sel):
                                'tracked region of WaveSim memory up to its terminator')):
         hit = [i for i in bad if kinds[i] == kind]
         ck.obligation(f'line-level {what}: {kinds.count(kind)} lanes', allok and not hit, 'correspondence', f'failing cases {hit[:10]}')
-    return [dict(metas[i], line_level_failed=bad[i]) for i in sorted(bad)]
+    gbad = wk.glue_level_eval(ck, gcases, gmetas, tag='sg')
+    return [dict(metas[i], line_level_failed=bad[i]) for i in sorted(bad)] + gbad
 
 
 def wave_options(rng, k=None):
@@ -388,6 +396,11 @@ def run(ck):
         ck.fail(key, what, dict(rp, actual=what))
     if not unknown:
         for m in line_mism[:3]:
+            if 'glue_failed' in m:
+                ck.fail('end-to-end-disagrees', 'the proved end-to-end statement (wavesim_model_correct) and the implementation disagree: ' + '; '.join(m['glue_failed']),
+                        {'component': 'wave_sim.WaveSim / sim.SimOps (memory map, capture)', 'input': m, 'broken': ['correspondence end to end (wglue_case)']},
+                        found_input=False)
+                continue
             ck.fail('line-level-disagrees', f'line-level model ({m["kind"]}) and implementation disagree',
                     {'component': 'Model/WaveStripModel.v vs wave_sim._wave_eval / sim.SimOps', 'input': m,
                      'broken': ['correspondence line level (wexec_alias / wexec_sel)']}, found_input=False)
